@@ -391,7 +391,8 @@ def corners(opt, rnd, quick):
                 ({'w_min': 0.3, 'w_max': 2.5, 'w': 1.0}, [], 'wide'),
                 ({'w_min': 1e-3, 'w_max': 1e3, 'w': 1.0}, [], 'huge'),
                 ({'w_min': 0.8, 'w_max': 0.9}, [], 'initial-w-below'),
-                ({'w': 5.0}, [], 'initial-w-above')]
+                ({'w': 5.0}, [], 'initial-w-above'),
+                ({'w_min': 0.4, 'w_max': 0.4}, [], 'degenerate-initial-w-outside')]
         for i in range(10 if quick else 60):
             a = round(rnd.uniform(0, 2), rnd.choice([1, 3, 17]))
             b = a + round(rnd.uniform(0, 2), rnd.choice([1, 3, 17]))
@@ -405,7 +406,11 @@ def corners(opt, rnd, quick):
                 ({'bw_min': 0, 'bw_max': 5}, [], 'bw_min=0'),
                 ({'bw_min': 0, 'bw_max': 0, 'bw': 0}, [], 'bw_min=bw_max=0'),
                 ({'PAR_min': 0.8, 'PAR_max': 0.9}, [], 'initial-PAR-below'),
-                ({'bw_min': 2, 'bw_max': 3}, [], 'initial-bw-below')]
+                ({'bw_min': 2, 'bw_max': 3}, [], 'initial-bw-below'),
+                # a constant bandwidth / pitch rate given as a degenerate range while the inherited HS value is left alone: the first
+                # in-loop write must still bring the value into the (one-point) range
+                ({'bw_min': 5.0, 'bw_max': 5.0}, [], 'degenerate-initial-bw-outside'),
+                ({'PAR_min': 0.2, 'PAR_max': 0.2}, [], 'degenerate-initial-PAR-outside')]
         for i in range(8 if quick else 40):
             a = round(rnd.uniform(0, 1), 3)
             b = round(rnd.uniform(a, 1), 3)
